@@ -55,7 +55,9 @@ class World:
         dis = ["django_disabled" if k == "django" else "unix_disabled" for k in kind]
         self.kw = {"unix_disabled__marker": "*"} if "unix2" in kind else {}
         # a deprecation policy that covers the disabled-account handler itself must not stop accounts from being disabled
-        dep = rnd.choice([None, None, "auto", "list"])
+        dep = rnd.choice([None, None, "auto", "list", "frozen"])
+        if dep == "frozen":
+            self.kw["deprecated"] = [scheme]         # every real scheme deprecated: the disabled-account handler is what remains as default
         if dep == "auto" and not first:
             self.kw["deprecated"] = "auto"
         elif dep == "list":
@@ -116,12 +118,43 @@ def call(fn, *a):
         return ("Internal:" + type(e).__name__, str(e)[:80])
 
 
+def only_disabled_contexts(chk):
+    """contexts in which nothing but disabled-account handlers can make a hash (only such handlers listed, or every real scheme
+    deprecated): accounts can still be disabled, never log in, and - with the marker style that embeds the hash - be restored"""
+    from passlib.context import CryptContext
+    H0 = "$1$abcdefgh$IQtUouv7y7Q9dRWkQEPCc."
+    for cfg, embeds in ((dict(schemes=["unix_disabled"]), True), (dict(schemes=["django_disabled"]), False), (dict(schemes=["unix_disabled", "django_disabled"]), True),
+                        (dict(schemes=["md5_crypt", "unix_disabled"], deprecated=["md5_crypt"]), True), (dict(schemes=["unix_disabled", "md5_crypt"], deprecated=["md5_crypt"]), True),
+                        (dict(schemes=["django_disabled", "unix_disabled"]), False)):
+        chk.count(("only-disabled", json.dumps(cfg, sort_keys=True)))
+        chk.action("only-disabled-context")
+        steps = []
+        try:
+            c = CryptContext(**cfg)
+            d = c.disable()
+            d2 = c.disable(H0)
+            steps = [("disable()", d), ("disable(hash)", d2)]
+            facts = [c.verify("pw", d), c.verify("pw", d2), c.verify(d, d), c.is_enabled(d), c.is_enabled(d2), c.verify("pw", None)]
+            try:
+                back = c.enable(d2)
+            except ValueError:
+                back = "ValueError"
+            want_back = H0 if embeds else "ValueError"
+            chk.evaluations += 8
+            if any(f is not False for f in facts) or back != want_back or (embeds and H0 not in d2) or H0 == d2:
+                chk.violation("only-disabled:" + "+".join(cfg["schemes"]), f"context {cfg}: disable() / disable(hash) gave {d!r} / {d2!r}; verify / is_enabled facts {facts} (all must be False); enable gives {back!r} (expected {want_back!r})",
+                              {"configuration": cfg, "steps": steps})
+        except Exception as ex:
+            chk.violation("only-disabled:" + "+".join(cfg["schemes"]) + ":" + type(ex).__name__, f"context {cfg}: {type(ex).__name__}: {ex}", {"configuration": cfg, "steps": steps})
+
+
 def replay_beh(chk, beh, scheme, first, rnd):
     kind = beh[0]["kind"]
     try:
         W = World(kind, scheme, first, rnd)
     except Exception as e:
-        chk.uncovered.append(f"{scheme}: cannot build context: {type(e).__name__}: {e}"[:150])
+        chk.violation(f"context:build:{type(e).__name__}", f"a context of {scheme} and the disabled-account handler(s) {list(kind)} cannot be built: {type(e).__name__}: {e}",
+                      {"scheme": scheme, "kind": list(kind), "disabled_first": first})
         return
     if (first and W.ambiguous) or W.other_claims or (scheme in CATCHALL and not first):
         return
@@ -156,6 +189,8 @@ def replay_beh(chk, beh, scheme, first, rnd):
             got = [r[0], W.abstract(r[1])] if r[0] == "ok" else [r[0]]
         elif op == "reload":
             cfg = dict(schemes=W.without_real if st["arg"] == "drop" else W.with_real, **W.kw)
+            if st["arg"] == "drop" and cfg.get("deprecated") == [scheme]:
+                cfg.pop("deprecated")           # (the policy named the scheme that is being dropped)
             r = call(W.ctx.load, cfg) if rnd.random() < .7 else call(W.ctx.load, __import__("passlib.context").context.CryptContext(**cfg).to_string())
             got = [r[0]]
         elif op == "is_enabled":
@@ -163,6 +198,8 @@ def replay_beh(chk, beh, scheme, first, rnd):
             got = [str(r[1])] if r[0] == "ok" else [r[0]]
         else:
             pw = W.right if st["arg"] == "right" else rnd.choice([W.wrong, "", xr or "x"] if scheme not in CATCHALL else [W.wrong, W.wrong + "2"])
+            if x == "None" and st["arg"] != "right" and rnd.random() < .5:
+                pw = rnd.choice(["wr\0ng", "\0", b"wr\xffng", "w" * 300])       # no account: whatever was typed, the answer is False
             before = W.dummy_calls
             r = call(W.ctx.verify, pw, arg)
             got = [str(r[1])] if r[0] == "ok" else [r[0]]
@@ -211,6 +248,7 @@ def run(chk):
         chk.traces += 1
     if behs:
         chk.sample({"history": [{k: s[k] for k in ("kind", "op", "arg", "res", "x")} for s in behs[0]], "initial": behs[0][0]["x0"]})
+    only_disabled_contexts(chk)
     chk.assumptions += ["'costs a dummy verification' is observed as exactly one call of the context's dummy_verify(); its duration is not measured",
                         "catch-all schemes (plaintext) and schemes whose own hashes begin with a marker character (mysql41 '*...') are excluded: the statement's 'original hash' is then ambiguous by construction"]
 
